@@ -13,65 +13,78 @@ Ltac kill_if H :=
   | (if ?b then _ else Err _) = Ok _ => destruct b; [|discriminate H]
   end.
 
-Lemma step_done c s e s' :
-  step c s e = Ok s' ->
-  done s' = done s \/ exists t o, e = EOutput t o /\ done s' = (t, o) :: done s.
+Lemma step_done c s e s' k :
+  step c s e = Ok s' -> In k (done s') ->
+  In k (done s) \/ e = EOutput (fst k) (snd k) \/ e = EStaleOutput (fst k) (snd k).
 Proof.
   intros H. destruct e; cbn [step] in H.
-  - destruct (find_inst (c_insts c) t); [|discriminate]. kill_if H. injection H as <-. left. cbn.
-    destruct held; [apply (add_hold_fields s t)|reflexivity].
-  - destruct (find_task (limbo s) t); [|discriminate]. kill_if H. injection H as <-. now left.
+  - destruct (find_inst (c_insts c) t); [|discriminate]. kill_if H. injection H as <-. cbn.
+    destruct held; [rewrite (proj1 (proj2 (proj2 (add_hold_fields s t))))|]; auto.
+  - destruct (find_task (limbo s) t); [|discriminate]. kill_if H. injection H as <-. auto.
   - destruct (lookup s t) as [[p inp]|]; [|discriminate]. destruct (find_inst (c_insts c) t); [|discriminate].
-    kill_if H. injection H as <-. left. apply store_done.
+    kill_if H. injection H as <-. rewrite store_done. auto.
   - destruct (lookup s t) as [[p inp]|].
-    + kill_if H. injection H as <-. right. exists t, o. split; reflexivity.
-    + injection H as <-. right. exists t, o. split; reflexivity.
-  - destruct (lookup s t) as [[p inp]|]; [|injection H as <-; now left].
-    destruct (find_inst (c_insts c) t); [|discriminate].
-    kill_if H. injection H as <-. left. rewrite store_done.
-    destruct (h && negb (p_held p)); [apply (add_hold_fields s t)|reflexivity].
-  - injection H as <-. now left.
-  - kill_if H. injection H as <-. now left.
+    + kill_if H. injection H as <-. cbn. intros [<-|Hk]; auto.
+    + injection H as <-. cbn. intros [<-|Hk]; auto.
+  - destruct (lookup s t) as [[p inp]|].
+    + destruct (find_inst (c_insts c) t); [|discriminate].
+      kill_if H. injection H as <-. rewrite store_done.
+      destruct (h && negb (p_held p)); [rewrite (proj1 (proj2 (proj2 (add_hold_fields s t))))|]; auto.
+    + destruct h; injection H as <-; [rewrite (proj1 (proj2 (proj2 (add_hold_fields s t))))|]; auto.
+  - injection H as <-. auto.
+  - kill_if H. injection H as <-. auto.
   - destruct (find_task (pool s) t); [|discriminate]. destruct (find_inst (c_insts c) t); [|discriminate].
-    kill_if H. injection H as <-. now left.
+    kill_if H. injection H as <-. auto.
   - destruct (find_task (pool s) t); [|discriminate]. destruct (find_inst (c_insts c) t); [|discriminate].
-    kill_if H. injection H as <-. now left.
-  - destruct (pool s); [injection H as <-; now left|]. kill_if H. injection H as <-; now left.
-  - destruct (lookup s t) as [[p inp]|]; [|discriminate]. injection H as <-. left. apply store_done.
-  - kill_if H. injection H as <-. now left.
-  - injection H as <-. left. clear. revert s. induction ids as [|t r IH]; intros s; cbn; [reflexivity|].
-    rewrite IH. apply (add_hold_fields s t).
-  - injection H as <-. now left.
-  - injection H as <-. now left.
-  - injection H as <-. now left.
-  - injection H as <-. now left.
-  - injection H as <-. now left.
+    kill_if H. injection H as <-. auto.
+  - destruct (pool s); [injection H as <-; auto|]. destruct (option_eqb Z.eqb l (spec_limit c s)).
+    + injection H as <-; auto.
+    + kill_if H. injection H as <-; auto.
+  - destruct (lookup s t) as [[p inp]|]; [|discriminate]. injection H as <-. rewrite store_done. auto.
+  - kill_if H. injection H as <-. auto.
+  - injection H as <-. intros Hk. left. revert Hk. clear. revert s.
+    induction ids as [|t r IH]; intros s; cbn; [auto|]. intros Hk. apply IH in Hk.
+    now rewrite (proj1 (proj2 (proj2 (add_hold_fields s t)))) in Hk.
+  - injection H as <-. auto.
+  - injection H as <-. auto.
+  - injection H as <-. auto.
+  - injection H as <-. auto.
+  - injection H as <-. auto.
   - destruct (crash_mode s).
-    + destruct (find_inst (c_insts c) (v_id v)); [|discriminate]. kill_if H. injection H as <-. now left.
-    + destruct (find_task (saved s) (v_id v)); [|discriminate]. kill_if H. injection H as <-. now left.
-  - destruct (crash_mode s); [injection H as <-; now left|].
-    destruct (saved s); [injection H as <-; now left|discriminate].
-  - injection H as <-. now left.
-  - kill_if H. injection H as <-. now left.
-  - injection H as <-. now left.
-  - injection H as <-. now left.
-  - injection H as <-. now left.
-  - destruct (stop_task s); [|discriminate]. kill_if H. injection H as <-. now left.
-  - kill_if H. destruct m; kill_if H; injection H as <-; now left.
-  - kill_if H. injection H as <-. now left.
-  - kill_if H. injection H as <-. now left.
-  - kill_if H. injection H as <-. now left.
+    + destruct (find_inst (c_insts c) (v_id v)); [|discriminate]. kill_if H. injection H as <-. auto.
+    + destruct (find_task (saved s) (v_id v)); [|discriminate]. kill_if H. injection H as <-. auto.
+  - destruct (crash_mode s); [injection H as <-; auto|].
+    destruct (saved s); [injection H as <-; auto|discriminate].
+  - destruct (find_task (limbo s) t); [|discriminate]. kill_if H. injection H as <-. auto.
+  - destruct (find_inst (c_insts c) t); [|discriminate]. kill_if H. injection H as <-. auto.
+  - destruct (lookup s t) as [[p inp]|]; [|injection H as <-; auto].
+    destruct (find_inst (c_insts c) t); [|discriminate]. kill_if H. injection H as <-. rewrite store_done. auto.
+  - destruct (lookup s t) as [[p inp]|]; [|injection H as <-; auto]. kill_if H. injection H as <-.
+    rewrite store_done. auto.
+  - destruct (lookup s t) as [[p inp]|]; injection H as <-; [rewrite store_done|]; auto.
+  - injection H as <-. cbn. intros Hk. apply filter_In in Hk. left. tauto.
+  - injection H as <-. auto.
+  - kill_if H. injection H as <-. auto.
+  - injection H as <-. auto.
+  - injection H as <-. auto.
+  - injection H as <-. auto.
+  - destruct (stop_task s); [|discriminate]. kill_if H. injection H as <-. auto.
+  - kill_if H. destruct m; kill_if H; injection H as <-; auto.
+  - kill_if H. injection H as <-. auto.
+  - kill_if H. injection H as <-. auto.
+  - kill_if H. injection H as <-. auto.
+  - injection H as <-. cbn. intros [<-|Hk]; auto.
+  - injection H as <-. rewrite (proj1 (proj2 (proj2 (add_hold_fields s t)))). auto.
 Qed.
 
 Lemma exec_done c tr : forall s s' k,
-  exec c s tr = Some s' -> In k (done s') -> In k (done s) \/ In (EOutput (fst k) (snd k)) tr.
+  exec c s tr = Some s' -> In k (done s') -> In k (done s) \/ emitted tr k.
 Proof.
-  induction tr as [|e r IH]; intros s s' k; cbn.
+  unfold emitted. induction tr as [|e r IH]; intros s s' k; cbn.
   - intros [= <-]. auto.
   - destruct (step c s e) as [s1|] eqn:E; [|discriminate]. intros H Hk.
-    destruct (IH _ _ _ H Hk) as [Hd|Hd]; [|auto].
-    destruct (step_done _ _ _ _ E) as [Heq|[t [o [-> Heq]]]]; rewrite Heq in Hd; [auto|].
-    destruct Hd as [<-|Hd]; [right; now left|auto].
+    destruct (IH _ _ _ H Hk) as [Hd|[Hd|Hd]]; [|auto|auto].
+    destruct (step_done _ _ _ _ _ E Hd) as [Hd'|[Heq|Heq]]; [auto|right; left; left; exact Heq|right; right; left; exact Heq].
 Qed.
 
 (* ------------------------------------------------------------------ *)
@@ -114,7 +127,7 @@ Theorem submit_only_when_satisfied c tr1 tr2 t sn sf :
     valid_id c t /\ p_status p = Preparing /\
     (p_manual p = true \/
      forall e, In e (i_pre i) ->
-       bx_holds (fun k => In (EOutput (fst k) (snd k)) tr1) e).
+       bx_holds (fun k => emitted tr1 k \/ In k (p_forced p)) e).
 Proof.
   intros H. apply exec_app in H. destruct H as [s1 [H1 H2]].
   cbn [exec] in H2. destruct (step c s1 (ESubmit t sn)) as [s2|] eqn:Es; [|discriminate].
@@ -134,7 +147,7 @@ Proof.
     destruct (inv_ok c s1 I p i (or_introl Hin) Hi Hn) as [Hm|Hok]; [now left|right].
     intros e He. unfold prereqs_ok in Hok. rewrite forallb_forall in Hok.
     eapply bx_eval_holds; [|apply Hok; exact He].
-    intros k Hk. unfold sat_of in Hk. apply mem_key_In in Hk.
+    intros k Hk. apply sat_of_spec in Hk. destruct Hk as [Hk|Hk]; [left|right; exact Hk].
     pose proof (inv_sat c s1 I p k (or_introl Hin) Hk) as Hd.
     destruct (exec_done _ _ _ _ _ H1 Hd) as [[]|Ho]. exact Ho.
 Qed.
@@ -184,13 +197,23 @@ Proof.
   exists l. split; [reflexivity|]. now apply Z.leb_le.
 Qed.
 
+Lemma option_Z_eqb_eq a b : option_eqb Z.eqb a b = true -> a = b.
+Proof.
+  destruct a as [x|], b as [y|]; cbn; intros E; try discriminate; auto. apply Z.eqb_eq in E. now subst.
+Qed.
+
+(* the accepted limit is the specification for the current pool -- or (finding C04: the code's
+   early return) the previous limit when that already sits at the stop point *)
 Theorem limit_is_spec c s l s' :
-  step c s (ELimit l) = Ok s' -> pool s <> [] -> l = spec_limit c s /\ limit s' = l.
+  step c s (ELimit l) = Ok s' -> pool s <> [] ->
+  (l = spec_limit c s \/ (limit s = Some (stop_point s) /\ l = limit s)) /\ limit s' = l.
 Proof.
   cbn [step]. destruct (pool s) eqn:Ep; [congruence|]. intros H _.
-  destruct (option_eqb Z.eqb l (spec_limit c s)) eqn:E; [|discriminate]. injection H as <-.
-  split; [|reflexivity]. destruct l as [x|], (spec_limit c s) as [y|]; cbn in E; try discriminate; auto.
-  apply Z.eqb_eq in E. now subst.
+  destruct (option_eqb Z.eqb l (spec_limit c s)) eqn:E.
+  - injection H as <-. split; [left; now apply option_Z_eqb_eq|reflexivity].
+  - destruct (option_eqb Z.eqb (limit s) (Some (stop_point s)) && option_eqb Z.eqb l (limit s)) eqn:E2; [|discriminate].
+    injection H as <-. apply andb_true_iff in E2. destruct E2 as [A B].
+    split; [right; split; now apply option_Z_eqb_eq|reflexivity].
 Qed.
 
 Lemma nth_or_last_ge n : forall l d b, (forall x, In x l -> b <= x) -> b <= d -> b <= nth_or_last n l d.
@@ -304,24 +327,26 @@ Proof. destruct a, b; cbn; intros H; try discriminate; constructor. Qed.
 
 Theorem status_change_follows_lifecycle c s t st h q r s' p inp :
   step c s (EState t st h q r) = Ok s' -> lookup s t = Some (p, inp) ->
-  st = p_status p \/
+  st = p_status p \/ p_manual p = true \/
   (lifecycle (p_status p) st /\
    (p_status p = Waiting -> st = Preparing -> p_rel p = true \/ p_manual p = true) /\
    (st = Preparing -> p_held p = true -> p_manual p = true)).
 Proof.
   cbn [step]. intros H El. rewrite El in H.
   destruct (find_inst (c_insts c) t); [|discriminate].
-  destruct (negb (status_eqb st (p_status p)) && negb (trans_ok p (p_status p) st)) eqn:E1; [discriminate|].
+  destruct (negb (status_eqb st (p_status p)) && negb (trans_ok p (p_status p) st) && negb (p_manual p)) eqn:E1;
+    [discriminate|].
   destruct (_ && _) in H; [discriminate|]. destruct (_ && _) in H; [discriminate|].
   destruct (status_eqb st Preparing && negb (status_eqb (p_status p) Preparing) && p_held p && negb (p_manual p)) eqn:E4;
     [discriminate|].
   destruct (status_eqb st (p_status p)) eqn:Es; [left; now apply status_eqb_eq|right].
-  cbn in E1. apply negb_false_iff in E1. split; [eapply trans_ok_lifecycle; eauto|]. split.
-  - intros Hw ->. rewrite Hw in E1. cbn in E1. now apply orb_true_iff in E1.
+  destruct (p_manual p) eqn:Em; [now left|right].
+  cbn in E1. rewrite andb_true_r in E1. apply negb_false_iff in E1. split; [eapply trans_ok_lifecycle; eauto|]. split.
+  - intros Hw ->. rewrite Hw in E1. cbn in E1. rewrite Em in E1. now apply orb_true_iff in E1.
   - intros -> Hh. rewrite Hh in E4. cbn in E4.
     destruct (status_eqb (p_status p) Preparing) eqn:Ep.
     + apply status_eqb_eq in Ep. rewrite Ep in Es. discriminate.
-    + cbn in E4. now apply negb_false_iff in E4.
+    + cbn in E4. rewrite ?Em in E4. cbn in E4. discriminate.
 Qed.
 
 (* ------------------------------------------------------------------ *)
@@ -362,15 +387,17 @@ Qed.
 (* ------------------------------------------------------------------ *)
 (* C05 (pool level)                                                     *)
 (* ------------------------------------------------------------------ *)
+(* released now for the first time, not counting manually triggered tasks (which may exceed a limit) *)
 Definition newly_released (s : mstate) (l : list tid) : list tid :=
-  filter (fun t => match find_task (pool s) t with Some p => negb (p_rel p) | None => true end) l.
+  filter (fun t => match find_task (pool s) t with
+                   | Some p => negb (p_rel p) && negb (p_manual p) | None => true end) l.
 Definition count_in_queue (c : cfg) (q : nat) (l : list tid) : nat :=
   count_true (fun t => match find_inst (c_insts c) t with
                        | Some i => Nat.eqb (i_queue i) q | None => false end) l.
 
 Theorem release_respects_queue_limits c s l s' :
   step c s (ERelease l) = Ok s' ->
-  (forall t, In t l -> exists p, find_task (pool s) t = Some p /\ p_held p = false) /\
+  (forall t, In t l -> exists p, find_task (pool s) t = Some p /\ (p_held p = false \/ p_manual p = true)) /\
   forall q, (q < length (c_qlimits c))%nat -> qlimit c q <> 0%nat ->
     count_in_queue c q (newly_released s l) <> 0%nat ->
     (active_in c s q + count_in_queue c q (newly_released s l) <= qlimit c q)%nat.
@@ -384,7 +411,8 @@ Proof.
   - intros t Ht. specialize (E1 t Ht). unfold chk in E1.
     destruct (find_task (pool s) t) as [p|]; [|discriminate]. exists p. split; [reflexivity|].
     destruct (find_inst (c_insts c) t); [|discriminate].
-    rewrite !andb_true_iff in E1. destruct E1 as [[_ E1] _]. now apply negb_true_iff in E1.
+    rewrite !andb_true_iff in E1. destruct E1 as [[_ E1] _]. apply orb_true_iff in E1.
+    destruct E1 as [E1|E1]; [left; now apply negb_true_iff in E1|now right].
   - intros q Hq Hlim Hn. unfold release_ok in E2. rewrite forallb_forall in E2.
     assert (Hin : In q (seq 0 (length (c_qlimits c)))) by (apply in_seq; lia).
     specialize (E2 q Hin). cbn zeta in E2. fold (count_in_queue c q (newly_released s l)) in E2.
@@ -398,13 +426,14 @@ Qed.
 (* ------------------------------------------------------------------ *)
 Theorem held_not_queued c s t st h s' p inp r :
   step c s (EState t st h true r) = Ok s' -> lookup s t = Some (p, inp) -> p_queued p = false ->
-  h = false.
+  p_manual p = false -> h = false.
 Proof.
-  cbn [step]. intros H El Hq. rewrite El in H.
+  cbn [step]. intros H El Hq Hm. rewrite El in H.
   destruct (find_inst (c_insts c) t) as [i|]; [|discriminate].
   destruct (_ && _) in H; [discriminate|].
-  destruct (true && negb (p_queued p) && negb (ready i (set_flags p h false r))) eqn:E2; [discriminate|].
-  rewrite Hq in E2. cbn in E2. apply negb_false_iff in E2. unfold ready in E2. cbn in E2.
+  destruct (true && negb (p_queued p) && negb (ready i (set_flags p h false r)) && negb (p_manual p)) eqn:E2;
+    [discriminate|].
+  rewrite Hq, Hm in E2. cbn in E2. rewrite andb_true_r in E2. apply negb_false_iff in E2. unfold ready in E2. cbn in E2.
   rewrite !andb_true_iff in E2. destruct E2 as [[[_ E2] _] _]. now apply negb_true_iff in E2.
 Qed.
 
@@ -654,4 +683,114 @@ Proof.
   split; [intros o Ho; apply mem_key_In; auto|]. split; [now apply existsb_id_false|].
   cbn. intros x Hx. apply filter_In in Hx. destruct Hx as [Hx Hf]. split; [exact Hx|].
   intros Heq. rewrite Heq, tid_eqb_refl in Hf. cbn in Hf. now apply Nat.leb_le in Hf.
+Qed.
+
+(* ------------------------------------------------------------------ *)
+(* C29 / C30 / C28: commands                                            *)
+(* ------------------------------------------------------------------ *)
+Theorem forced_state_never_active c s t st h q r s' p inp :
+  step c s (EStateForced t st h q r) = Ok s' -> lookup s t = Some (p, inp) ->
+  st <> Submitted /\ st <> Running.
+Proof.
+  cbn [step]. intros H El. rewrite El in H.
+  destruct (status_eqb st Submitted || status_eqb st Running) eqn:E; [discriminate|].
+  apply orb_false_iff in E. destruct E as [E1 E2].
+  split; intros ->; discriminate.
+Qed.
+
+Theorem force_sat_only_own_prerequisites c s t keys s' p inp i :
+  step c s (EForceSat t keys) = Ok s' -> lookup s t = Some (p, inp) -> find_inst (c_insts c) t = Some i ->
+  forall k, In k keys -> exists pre, In (k, pre) (inst_keys i).
+Proof.
+  cbn [step]. intros H El Hi. rewrite El, Hi in H.
+  destruct (negb (forallb (fun k => existsb (fun kp => key_eqb (fst kp) k) (inst_keys i)) keys)) eqn:E; [discriminate|].
+  apply negb_false_iff in E. rewrite forallb_forall in E. intros k Hk. specialize (E k Hk).
+  apply existsb_exists in E. destruct E as [[k' pre] [Hin Heq]]. cbn in Heq. apply key_eqb_eq in Heq. subst k'.
+  eauto.
+Qed.
+
+(* satisfaction by an output -- natural or set by command -- touches exactly the matching atoms,
+   and only for outputs that were really completed *)
+Theorem sat_exact c s t msgs new s' p inp i :
+  step c s (ESat t msgs new) = Ok s' -> lookup s t = Some (p, inp) -> find_inst (c_insts c) t = Some i ->
+  (forall k, In k msgs -> In k (done s)) /\
+  (forall k, In k new <-> (exists pre, In (k, pre) (inst_keys i) /\ pre = false) /\ In k msgs /\ sat_of p k = false).
+Proof.
+  cbn [step]. intros H El Hi. rewrite El, Hi in H.
+  destruct (negb (forallb (fun k => out_done s (fst k) (snd k)) msgs)) eqn:Em; [discriminate|].
+  match type of H with (if negb (same_keys new ?e) then _ else _) = _ => set (expect := e) in * end.
+  destruct (negb (same_keys new expect)) eqn:En; [discriminate|]. clear H.
+  apply negb_false_iff in Em, En. rewrite forallb_forall in Em. split.
+  - intros k Hk. specialize (Em k Hk). unfold out_done in Em. apply mem_key_In in Em. destruct k; exact Em.
+  - unfold same_keys in En. apply andb_true_iff in En. destruct En as [E1 E2].
+    assert (Hex : forall k, In k expect <->
+              (exists pre, In (k, pre) (inst_keys i) /\ pre = false) /\ In k msgs /\ sat_of p k = false).
+    { intros k. unfold expect. split.
+      - intros Hk. apply (dedup_In key_eqb key_eqb_eq) in Hk. apply in_map_iff in Hk.
+        destruct Hk as [[k' pre] [Heq Hf]]. cbn in Heq. subst k'. apply filter_In in Hf. destruct Hf as [Hin Hc].
+        cbn in Hc. rewrite !andb_true_iff in Hc. destruct Hc as [[Hp Hm] Hs].
+        apply negb_true_iff in Hp, Hs. apply mem_key_In in Hm. subst. split; [exists false; auto|auto].
+      - intros [[pre [Hin ->]] [Hm Hs]].
+        assert (Hd : In k (map fst (filter (fun kp => negb (snd kp) && mem key_eqb (fst kp) msgs
+                                                      && negb (sat_of p (fst kp))) (inst_keys i)))).
+        { apply in_map_iff. exists (k, false). split; [reflexivity|]. apply filter_In. split; [exact Hin|].
+          cbn. rewrite Hs. apply mem_key_In in Hm. rewrite Hm. reflexivity. }
+        clear -Hd. revert Hd. generalize (map fst (filter (fun kp => negb (snd kp) && mem key_eqb (fst kp) msgs
+                                                      && negb (sat_of p (fst kp))) (inst_keys i))).
+        intros l. induction l as [|y r IH]; cbn; [tauto|].
+        destruct (mem key_eqb y r) eqn:Ey.
+        + intros [<-|Hk]; [apply IH; now apply mem_key_In|auto].
+        + intros [<-|Hk]; [now left|right; auto]. }
+    intros k. rewrite <- Hex. split; intros Hk; eapply subset_keys_In; eauto.
+Qed.
+
+(* cylc remove erases exactly the history of the removed instance *)
+Theorem remove_erases_history c s t s' :
+  step c s (ECmdRemove t) = Ok s' ->
+  (forall k, In k (done s') <-> In k (done s) /\ (fst k <> t \/ In k (abs_done s))) /\
+  (forall x, In x (subs s') <-> In x (subs s) /\ fst x <> t) /\
+  (forall h, In h (hist s') <-> In h (hist s) /\ h_id h <> t) /\
+  to_hold s' = to_hold s /\ hold_pt s' = hold_pt s /\ abs_done s' = abs_done s /\
+  map p_id (pool s') = map p_id (pool s).
+Proof.
+  cbn [step]. intros [= <-]. cbn.
+  assert (Hne : forall a : tid, negb (tid_eqb a t) = true <-> a <> t).
+  { intros a. rewrite negb_true_iff. split.
+    - intros E Heq. subst. rewrite tid_eqb_refl in E. discriminate.
+    - intros Hn. destruct (tid_eqb a t) eqn:E; [apply tid_eqb_eq in E; congruence|reflexivity]. }
+  repeat split.
+  - apply filter_In in H. tauto.
+  - apply filter_In in H. destruct H as [_ H]. apply orb_true_iff in H.
+    destruct H as [H|H]; [left; now apply Hne|right; now apply mem_key_In].
+  - intros [H1 H2]. apply filter_In. split; [exact H1|]. apply orb_true_iff.
+    destruct H2 as [H2|H2]; [left; now apply Hne|right; now apply mem_key_In].
+  - apply filter_In in H. tauto.
+  - apply filter_In in H. destruct H as [_ H]. now apply Hne.
+  - intros [H1 H2]. apply filter_In. split; [exact H1|now apply Hne].
+  - apply filter_In in H. tauto.
+  - apply filter_In in H. destruct H as [_ H]. now apply Hne.
+  - intros [H1 H2]. apply filter_In. split; [exact H1|now apply Hne].
+  - rewrite map_map. apply map_ext. intros p. destruct (forallb _ (p_sat p)); reflexivity.
+Qed.
+
+(* ... and leaves every other field of every pooled task alone: only naturally satisfied
+   prerequisites that came from the removed instance are unset *)
+Theorem remove_frame c s t s' p :
+  step c s (ECmdRemove t) = Ok s' -> In p (pool s) ->
+  exists p', In p' (pool s') /\ p_id p' = p_id p /\ p_status p' = p_status p /\ p_outs p' = p_outs p /\
+    p_flows p' = p_flows p /\ p_forced p' = p_forced p /\ p_held p' = p_held p /\ p_sn p' = p_sn p /\
+    (forall k, In k (p_sat p') <-> In k (p_sat p) /\ fst k <> t).
+Proof.
+  cbn [step]. intros [= <-] Hp. cbn.
+  set (keep := fun k : key => negb (tid_eqb (fst k) t)).
+  set (fix_task := fun p : ptask =>
+        if forallb keep (p_sat p) then p else set_manual (set_sat p (filter keep (p_sat p))) true).
+  assert (Hne : forall k, keep k = true <-> fst k <> t).
+  { intros k. unfold keep. rewrite negb_true_iff. split.
+    - intros E Heq. rewrite Heq, tid_eqb_refl in E. discriminate.
+    - intros Hn. destruct (tid_eqb (fst k) t) eqn:E; [apply tid_eqb_eq in E; congruence|reflexivity]. }
+  exists (fix_task p). split; [apply in_map; exact Hp|].
+  unfold fix_task. destruct (forallb keep (p_sat p)) eqn:E; cbn; repeat (split; [reflexivity|]); intros k.
+  - rewrite forallb_forall in E. split; [intros Hk; split; [exact Hk|apply Hne; auto]|tauto].
+  - rewrite filter_In, Hne. tauto.
 Qed.
